@@ -24,6 +24,11 @@ pub fn info(prop: &str) -> PropInfo {
         "C03" => PropInfo { id: "C03", engine: "e1", rule: "seeded acyclic program + history without faults; every body execution is checked against the justification model; distinct = (program, history) hash; non-trivial = request after write after request and at least one re-execution was checked (justified) or a memo was validated" },
         "C04" => PropInfo { id: "C04", engine: "e1", rule: "seeded programs with untracked reads of external cells + histories changing cells followed by a synthetic write of any durability; non-trivial = an untracked node was re-executed in a later revision" },
         "C06" => PropInfo { id: "C06", engine: "e1", rule: "seeded programs whose makers create 0..k tracked structs conditionally with colliding idents; non-trivial = a maker re-executed and at least one struct identity was compared (kept) or a discard was expected" },
+        "C05" => PropInfo { id: "C05", engine: "e1", rule: "seeded programs whose shared sub-nodes are q_lru (declared capacity 4), histories interleaving requests, writes, set_lru_capacity(0..4), trigger_lru_eviction; non-trivial = the list model evicted at least one value and it was later recomputed or the bound was checked at full capacity" },
+        "C09" => PropInfo { id: "C09", engine: "e1", rule: "seeded programs interning small values into It1/It2/It3/ItInf (single shard) under LOW-only, mixed and MEDIUM/HIGH input durabilities, with bursts of revisions; every DidReuseInternedValue is checked against the retention model; non-trivial = at least one reuse event was checked, or (durable / immortal classes) an identity was observed to be kept across revisions" },
+        "C07" => PropInfo { id: "C07", engine: "e1", rule: "seeded programs churning tracked structs and interned values (revisions=1..3, single shard) with functions keyed by them; non-trivial = a slot was observed with a bumped generation or an interned slot was reused" },
+        "C10" => PropInfo { id: "C10", engine: "e1", rule: "seeded makers that conditionally specify q_spec for structs they create, consumers via returned handles, both request orders; non-trivial = request after write after request in a program that contains a Specify op and a Spec node" },
+        "C11" => PropInfo { id: "C11", engine: "e1", rule: "seeded acyclic programs with conditional Acc ops at several depths; accumulated() requested at random points; non-trivial = at least one non-empty accumulated vector was compared after a write" },
         _ => PropInfo { id: "C??", engine: "e1", rule: "" },
     }
 }
@@ -128,6 +133,111 @@ pub fn make_case(prop: &str, seed: u64, tier: Tier) -> Case {
             h.w_set = 35;
             class = "structs".into();
         }
+        "C05" => {
+            g.kinds = vec![(Kind::Plain, 6), (Kind::Lru, 10), (Kind::NoEq, 1)];
+            g.nodes = (5, 14);
+            g.ops = (2, 7);
+            g.untracked_ops = r.pct(25);
+            g.cells = (0, 1);
+            g.acc_ops = r.pct(20);
+            g.m_choices = vec![2, 3, 4];
+            h.steps = (10, 50);
+            h.w_query = 55;
+            h.w_set = 18;
+            h.w_synth = 8;
+            h.w_burst = 2;
+            h.w_setlru = 7;
+            h.w_triglru = 7;
+            h.w_setext = 3;
+            h.w_acc = if g.acc_ops { 4 } else { 0 };
+            h.w_clone = 3;
+            class = "lru".into();
+        }
+        "C09" => {
+            // interning under every retention setting x durability class, bursts with no interning
+            g.kinds = vec![(Kind::Plain, 10), (Kind::NoEq, 1), (Kind::Mk, 1)];
+            g.intern_ops = true;
+            g.intern_types = match r.below(5) {
+                0 => vec![0],
+                1 => vec![1],
+                2 => vec![2],
+                3 => vec![3, 0],
+                _ => vec![0, 1, 2, 3],
+            };
+            g.on_it = r.pct(60);
+            g.nodes = (3, 8);
+            g.ops = (2, 8);
+            g.m_choices = vec![4, 8, 8];
+            h.steps = (12, 50);
+            h.w_set = 35;
+            h.w_query = 45;
+            h.w_synth = 6;
+            h.w_burst = 6;
+            h.w_intern_out = 3;
+            knobs.hash_mod = 1;
+            match r.below(3) {
+                0 => {
+                    h.durs = vec![None];
+                    class = "all_low".into();
+                }
+                1 => {
+                    h.durs = vec![None, Some(Dur::Low), Some(Dur::Medium), Some(Dur::High)];
+                    class = "mixed_durability".into();
+                }
+                _ => {
+                    h.durs = vec![Some(Dur::Medium), Some(Dur::High)];
+                    class = "durable".into();
+                }
+            }
+        }
+        "C07" => {
+            // struct + interned churn with aggressive reclamation; functions keyed by structs,
+            // interned values and (Key, u32) tuples
+            g.kinds = vec![(Kind::Plain, 6), (Kind::Mk, 6), (Kind::Multi, 3), (Kind::NoEq, 1)];
+            g.ts_ops = r.pct(75);
+            g.intern_ops = r.pct(75) || !g.ts_ops;
+            g.intern_types = vec![0, 0, 1, 2];
+            g.on_ts = true;
+            g.on_it = true;
+            g.mk_bias = 80;
+            g.m_choices = vec![3, 4, 8];
+            g.ops = (3, 10);
+            h.steps = (10, 40);
+            h.w_set = 35;
+            h.w_synth = 8;
+            h.w_burst = 4;
+            h.w_intern_out = 4;
+            h.durs = vec![None, None, None, Some(Dur::Low)];
+            knobs.hash_mod = 1;
+            class = "churn".into();
+        }
+        "C10" => {
+            g.kinds = vec![(Kind::Plain, 6), (Kind::Mk, 9)];
+            g.ts_ops = true;
+            g.spec = true;
+            g.on_ts = r.pct(60);
+            g.mk_bias = 90;
+            g.m_choices = vec![2, 3, 4];
+            g.ops = (3, 10);
+            g.nodes = (3, 8);
+            h.w_query = 55;
+            h.w_set = 35;
+            class = "specify".into();
+        }
+        "C11" => {
+            g.kinds = vec![(Kind::Plain, 10), (Kind::NoEq, 2), (Kind::Multi, 2), (Kind::Mk, 2), (Kind::Lru, 1), (Kind::Ref, 1)];
+            g.acc_ops = true;
+            g.ts_ops = r.pct(25);
+            g.on_ts = true;
+            g.zero = true;
+            g.m_choices = vec![2, 3, 4];
+            h.w_acc = 40;
+            h.w_query = 25;
+            h.w_set = 35;
+            h.w_synth = 5;
+            h.durs = vec![None, None, Some(Dur::Low), Some(Dur::Medium), Some(Dur::High), Some(Dur::Never)];
+            class = "accumulate".into();
+        }
         _ => panic!("unknown property {prop}"),
     }
     scale(tier, &mut g, &mut h);
@@ -166,7 +276,12 @@ pub fn nontrivial(case: &Case, out: &RunOut) -> bool {
         }
         "C03" => base && (st("reexec_justified") > 0 || st("ev_did_validate_memo") > 0),
         "C04" => base && st("untracked_reexecuted_in_revision") > 0,
+        "C05" => base && (st("lru_evicted_value_recomputed") > 0 || st("lru_bound_checked_at_capacity") > 0),
+        "C09" => base && (st("intern_reuse_checked") > 0 || st("intern_identity_kept") > 0),
         "C06" => base && (st("ts_identity_kept") > 0 || st("ts_discard_seen") > 0),
+        "C07" => base && (st("slot_generation_bumped") > 0 || st("interned_slot_reused") > 0),
+        "C10" => base && case.prog.nodes.iter().any(|n| n.kind == Kind::Spec) && case.prog.nodes.iter().any(|n| n.ops.iter().any(|o| matches!(o, Op::Specify { .. }))),
+        "C11" => base && st("accumulated_nonempty") > 0,
         _ => {
             // a request after a write after a request
             let mut phase = 0;
